@@ -109,7 +109,10 @@ def gen_budget(rng, profile='migrate', year=2025):
         prim = [r for s in b['sources'] for r in s['rows']]
         for r in rows:
             if prim and rng.random() < 0.6:
-                r['value'] = abs(rng.choice(prim)['value'])
+                src_row = rng.choice(prim)
+                r['value'] = abs(src_row['value'])
+                r['style'] = 'plain3' if src_row['style'] == 'plain3' else 'plain'
+            elif r['style'] != 'plain3':
                 r['style'] = 'plain'
         file = 'data/orders.csv'
         b['sources'].append({'name': 'Orders', 'file': file, 'layout': lay, 'rows': rows, 'supplemental': True,
